@@ -548,15 +548,45 @@ static char *join_tokens(Token *tok, Token *end) {
   return buf;
 }
 
+// Returns true if a given token is a string literal or a character
+// constant, with or without an encoding prefix.
+static bool is_quoted(Token *tok) {
+  char *p = tok->loc;
+  if (!strncmp(p, "u8", 2))
+    p += 2;
+  else if (*p == 'u' || *p == 'U' || *p == 'L')
+    p++;
+  return p < tok->loc + tok->len && (*p == '"' || *p == '\'');
+}
+
 // Concatenates all tokens in `arg` and returns a new string token.
-// This function is used for the stringizing operator (#).
+// This function is used for the stringizing operator (#). A backslash
+// is inserted before each " and \ of a string literal or a character
+// constant, and nowhere else (C11 6.10.3.2p2).
 static Token *stringize(Token *hash, Token *arg) {
+  char *buf;
+  size_t buflen;
+  FILE *out = open_memstream(&buf, &buflen);
+
+  fputc('"', out);
+  for (Token *t = arg; t->kind != TK_EOF; t = t->next) {
+    if (t != arg && (t->has_space || t->at_bol))
+      fputc(' ', out);
+    for (int i = 0; i < t->len; i++) {
+      if (is_quoted(t) && (t->loc[i] == '\\' || t->loc[i] == '"'))
+        fputc('\\', out);
+      fputc(t->loc[i], out);
+    }
+  }
+  fputc('"', out);
+  fputc('\0', out);
+  fclose(out);
+
   // Create a new string token. We need to set some value to its
   // source location for error reporting function, so we use a macro
   // name token as a template. The new token takes the place of `#`
   // in the line.
-  char *s = join_tokens(arg, NULL);
-  Token *tok = new_str_token(s, hash);
+  Token *tok = tokenize(new_file(hash->file->name, hash->file->file_no, buf));
   inherit_flags(tok, hash, false);
   return tok;
 }
